@@ -459,17 +459,9 @@ func ruleR13_3(w *World, r *Report) {
 		r.Check(good && app && goes, "ApplyPushPullPack/refusal reaches the error handler", u.Pos(ap.Pos()), "error appended and handed to callHandlers; no state change on error", "an error response does not suppress the state change, or is not handed to the error handler")
 	}
 	if co := u.Fn(pDatatypes, "WiredDatatype", "checkOptionAndError"); co != nil {
-		var rw, rs, rt ssa.CallInstruction
-		for _, c := range callsNamed(co, "ResetWired") {
-			rw = c
-		}
-		for _, c := range callsNamed(co, "ResetSnapshot") {
-			rs = c
-		}
-		for _, c := range callsNamed(co, "ResetTransaction") {
-			rt = c
-		}
-		good := rw != nil && rs != nil && rt != nil && instrDominates(rw.(ssa.Instruction), rt.(ssa.Instruction)) && instrDominates(rs.(ssa.Instruction), rt.(ssa.Instruction))
+		d := deepOfDepth(co, 1)
+		rws, rss, rts := d.calls("ResetWired"), d.calls("ResetSnapshot"), d.calls("ResetTransaction")
+		good := len(rws) == 1 && len(rss) == 1 && len(rts) == 1 && d.dominates(rws[0], rts[0]) && d.dominates(rss[0], rts[0])
 		r.Check(good, "checkOptionAndError/subscribe reset order", u.Pos(co.Pos()), "ResetWired and ResetSnapshot before ResetTransaction", "the rollback point (ResetTransaction) is captured before the wire state and the snapshot have been reset: a later rollback restores the pre-subscription sequence number")
 	}
 }
